@@ -173,8 +173,17 @@ def run_conversations(cases):
                                 state["r"] += 1
                                 msgs = server_messages(conv, state["r"], req["id"])
                                 sent_log[state["r"]] = msgs
-                                for m in msgs:
-                                    proc.stdout.feed((json.dumps(m, ensure_ascii=(state["r"] % 2 == 0)) + "\n").encode())
+                                outl = [json.dumps(m, ensure_ascii=(state["r"] % 2 == 0)) for m in msgs]
+                                mode = state["r"] % 3
+                                if mode == 1:
+                                    # the notifications and the response arrive in ONE read
+                                    proc.stdout.feed(("\n".join(outl) + "\n").encode())
+                                elif mode == 2 and len(outl) > 1:
+                                    # ... or as one JSON array line (no version negotiated: batches are accepted)
+                                    proc.stdout.feed(("[" + ",".join(outl) + "]\n").encode())
+                                else:
+                                    for ln in outl:
+                                        proc.stdout.feed((ln + "\n").encode())
 
                 async with anyio.create_task_group() as tg:
                     tg.start_soon(server)
